@@ -30,7 +30,7 @@ def templates(tier, seed=0):
     # non-ASCII text in literals, interpolation, indexing, iteration, keys
     mb = ['é', '€uro', 'x\U0001F600y', 'ÀÉЀ', 'á']
     for i, s in enumerate(mb):
-        ts.append({'name': 'non-ascii-%d' % i, 'src': 's := "%s"\nt := $"<${s}>%s${s}"\nprint(t)\nprint(t->len())\nk := @h0@\nu := s[:k]\nw := s[k:]\nprint((u + w) == s)\nfor [i, c] in s {\n    print(c == s[i])\n}\no := {s: 1, "%s": 2}\nprint(o[s])\nprint($"${s}${s}%s")\nxs := [0, 0, 0, 0, 0, 0, 0, 0, 0]\nxs[0:k] = s[:k]\nprint(xs[0] == s[0])\n' % (s, s, s + 'z', s)})
+        ts.append({'name': 'non-ascii-%d' % i, 'src': 's := "%s"\nt := $"<${s}>%s${s}"\nprint(t)\nprint(t->len())\nk := @h0@\nu := s[:k]\nw := s[k:]\nprint((u + w) == s)\nfor [i, c] in s {\n    print(c == s[i])\n}\no := {s: 1, "%s": 2}\nprint(o[s])\nprint($"${s}${s}%s")\nprint($"${s + " €"}|${{"ü": s}["ü"]}|${"日" + s}")\nxs := [0, 0, 0, 0, 0, 0, 0, 0, 0]\nxs[0:k] = s[:k]\nprint(xs[0] == s[0])\n' % (s, s, s + 'z', s)})
     return ts
 
 def role(v):
